@@ -155,7 +155,9 @@ fn info<S: State + DeserializeOwned>(text: &str, svg: Option<String>, out: &mut 
         Ok(x) => serde_json::to_string(&x).map(|u| &u != t).unwrap_or(true),
         Err(_) => false,
     });
-    writeln!(out, "RESERIALISE same={}{}", serde_json::to_string(&st).unwrap() == text, if inexact { " class=serde-json-float-parse" } else { "" }).unwrap();
+    // (the same tokens in the same order: the layout of the file - compact or indented, a final newline - is not part of
+    //  the structure)
+    writeln!(out, "RESERIALISE same={}{}", json_tokens(&serde_json::to_string(&st).unwrap()) == json_tokens(text), if inexact { " class=serde-json-float-parse" } else { "" }).unwrap();
     if let Some(svg) = svg {
         let mut buf: Vec<u8> = vec![];
         svg::write(&mut buf, &st.as_svg()).unwrap();
@@ -205,4 +207,28 @@ pub fn state_info(args: &[String], out: &mut dyn Write) {
         ("circle", "lj") | ("trimer", "lj") => info::<PotentialState<LJShape2>>(&text, svg, out),
         _ => panic!("unsupported shape/kind"),
     }
+}
+
+/// the text of a JSON document without the white space between its tokens
+fn json_tokens(text: &str) -> String {
+    let mut out = String::with_capacity(text.len());
+    let (mut in_str, mut esc) = (false, false);
+    for c in text.chars() {
+        if in_str {
+            out.push(c);
+            if esc {
+                esc = false;
+            } else if c == '\\' {
+                esc = true;
+            } else if c == '"' {
+                in_str = false;
+            }
+        } else if c == '"' {
+            in_str = true;
+            out.push(c);
+        } else if !c.is_whitespace() {
+            out.push(c);
+        }
+    }
+    out
 }
